@@ -4,6 +4,20 @@
 
 package config_parser
 
+// C17 (a syntax error is a clean error, never a crash): the excerpt shown with a parser error starts at most 30
+// characters - and never more than the error's column - before the offending token, so it never starts before the
+// beginning of the text (a token's start index is at least its column: assumed of the ANTLR token stream).
+//@ func (*ConsoleErrorListener).SyntaxError
+//@   anchorsonly
+//@   nonilcheck
+//@   dyncalls noeffect
+//@   modifies *
+//@   requires column >= 0
+//@   ghostfn tstart() int
+//@   at call GetStart#1 assume-after result == tstart()
+//@   at call GetText#1 assert 0 <= backtrack && backtrack <= column && backtrack <= 30 && (tstart() >= column ==> a1 == tstart() - backtrack && a1 >= 0)
+//@   at call GetText#2 assert a1 == beginOfLine && (tstart() >= column ==> beginOfLine == tstart() - backtrack && a1 >= 0)
+
 // pstr: the textual form of a key:value pair as printed by Param.String (an abstraction: the contract
 // below is trusted, and callers may assume that the form determines key and value)
 //@ specfn pstr(k string, v string, a bool, b bool) string
